@@ -1,0 +1,22 @@
+//go:build verif
+
+// Contracts for package loading (compiled only with -tags=verif; checked by /verif/bin/govc). Properties C16, C01.
+package loading
+
+// The two annotation parsers collect comment lines and their line numbers in lock-step; handleTarget indexes the
+// line-number slice, so the equal-length fact is a precondition established by the collecting loop's invariant.
+
+//@ func (*makefileParser).handleTarget(p, annotationLines, annotationLineNumbers, targetLine) (err)
+//@   requires [same_len] len(annotationLines) == len(annotationLineNumbers)
+
+//@ func (*makefileParser).parse(p) (pkg, found, err)
+//@ loop #2
+//@   invariant [same_len] len(annotationLines) == len(annotationLineNumbers)
+
+//@ func (*scriptParser).handleTarget(p, annotationLines, annotationLineNumbers) (a, err)
+//@   requires [same_len] len(annotationLines) == len(annotationLineNumbers)
+//@   requires [nonempty] len(annotationLines) > 0
+
+//@ func (*scriptParser).parse(p) (pkg, found, err)
+//@ loop #2
+//@   invariant [same_len] len(annotationLines) == len(annotationLineNumbers)
